@@ -571,9 +571,8 @@ func (o *IPv6HopByHopOption) SetJumboLength(length uint32) {
 	o.OptionType = IPv6HopByHopOptionJumbogram
 	o.OptionLength = 4
 	o.ActualLength = 6
-	if len(o.OptionData) != 4 {
-		o.OptionData = make([]byte, 4)
-	}
+	// always fresh memory: OptionData of a decoded option is part of the packet it came from
+	o.OptionData = make([]byte, 4)
 	binary.BigEndian.PutUint32(o.OptionData, length)
 	o.OptionAlignment = [2]uint8{4, 2}
 }
